@@ -54,6 +54,8 @@ class ConScenario(Scenario):
         # pre: what happened on this (endpoint, message ID) before the exchange under test
         #   strayack/strayrst: an unmatched empty ACK/RST carrying the very ID the CON is going to use arrived earlier
         #   collide: the peer's own request carried the ID the CON is going to use (separate ID spaces must not mix)
+        #   class: the tuning is handed over as a TransportTuning subclass, not an instance (as aiocoap-client does)
+        #   queued: the CON under test had to wait behind two earlier requests to the same endpoint, each answered in turn
         self.params = {"source": source, "ACK_TIMEOUT": at, "ACK_RANDOM_FACTOR": arf, "MAX_RETRANSMIT": mr, "uniform": uni, "pre": pre}
         self.name = "S-CON-%s-%s-%s-%s-%s-%s" % (source, at, arf, mr, uni, pre)
         self.K = K
@@ -70,6 +72,8 @@ class ConScenario(Scenario):
         st.bystander = None
         tt = tuning(p["ACK_TIMEOUT"], p["ACK_RANDOM_FACTOR"], p["MAX_RETRANSMIT"])
         st.tt = tt
+        if pre == "class":
+            tt = type(tt)        # the model keeps reading the instance st.tt
         st.expect_payload = b"ok"
         st.old = None
         st.allowed_acks = set()
@@ -93,6 +97,15 @@ class ConScenario(Scenario):
                 st.old_token = od[4:4 + (od[0] & 15)]
                 w.inject(SERVER, CLIENT, rc.encode((rc.ACK, 0, (od[2] << 8) | od[3], b"", [], b"")))
                 w.rnd_mm.uniform_calls.clear()
+            elif pre == "queued":
+                early = []
+                for nm in ("qa", "qb"):
+                    em = Message(code=GET, uri_path=[nm])
+                    em.remote = st.node.remote(SERVER)
+                    early.append(st.node.ctx.request(em, handle_blockwise=False))
+                w.loop.settle()
+                st.early = early
+                qa = [d for d in w.sent if d.src == CLIENT][-1].data
             w.sent.clear()
             m = Message(code=GET, uri_path=["x"], transport_tuning=tt)
             m.remote = st.node.remote(SERVER)
@@ -109,6 +122,17 @@ class ConScenario(Scenario):
             else:
                 st.req = st.node.ctx.request(m, handle_blockwise=False)
             w.loop.settle()
+            if pre == "queued":
+                # the two requests ahead are answered in turn; each answer lets the next message out
+                if w.sent:
+                    st.violations.append(Violation("queued-message-sent-early", "held back", [repr(d) for d in w.sent], "messagemanager.py:send_message", {}, key="early"))
+                w.inject(SERVER, CLIENT, rc.encode((rc.ACK, 69, (qa[2] << 8) | qa[3], qa[4:4 + (qa[0] & 15)], [], b"a")))
+                qb = [d for d in w.sent if d.src == CLIENT][-1].data
+                w.sent.clear()
+                w.inject(SERVER, CLIENT, rc.encode((rc.ACK, 69, (qb[2] << 8) | qb[3], qb[4:4 + (qb[0] & 15)], [], b"b")))
+                del w.rnd_mm.uniform_calls[:-1]
+                if not all(f.response.done() and f.response.exception() is None for f in st.early):
+                    st.violations.append(Violation("earlier-request-unanswered", "both answered", [repr(f.response) for f in st.early], "tokenmanager.py", {}, key="early-unanswered"))
             # a bystander: an unrelated request to another endpoint, registered later, that must not be touched
             b = Message(code=GET, uri_path=["by"], _mtype=1)
             b.remote = st.node.remote(OTHERIP)
@@ -158,11 +182,11 @@ class ConScenario(Scenario):
         if len(calls) != 1:
             st.violations.append(Violation("initial-timeout-source", "one draw from [ACK_TIMEOUT, ACK_TIMEOUT*ACK_RANDOM_FACTOR]",
                                            calls, "messagemanager.py:_add_exchange", {}))
-            g0 = tt.ACK_TIMEOUT
+            g0 = st.tt.ACK_TIMEOUT
         else:
             a, b, g0 = calls[0]
-            if abs(a - tt.ACK_TIMEOUT) > 1e-12 or abs(b - tt.ACK_TIMEOUT * tt.ACK_RANDOM_FACTOR) > 1e-12:
-                st.violations.append(Violation("initial-timeout-range", [tt.ACK_TIMEOUT, tt.ACK_TIMEOUT * tt.ACK_RANDOM_FACTOR],
+            if abs(a - st.tt.ACK_TIMEOUT) > 1e-12 or abs(b - st.tt.ACK_TIMEOUT * st.tt.ACK_RANDOM_FACTOR) > 1e-12:
+                st.violations.append(Violation("initial-timeout-range", [st.tt.ACK_TIMEOUT, st.tt.ACK_TIMEOUT * st.tt.ACK_RANDOM_FACTOR],
                                                [a, b], "messagemanager.py:_add_exchange", {}))
         # reference model (RFC 7252 4.2)
         st.m_active = True
@@ -172,7 +196,7 @@ class ConScenario(Scenario):
         st.m_times = [st.t0]
         st.m_end = None          # ("ack"|"rst"|"resp"|"timeout", time)
         st.injected = 0
-        st.horizon = st.t0 + tt.MAX_TRANSMIT_WAIT + 5.0
+        st.horizon = st.t0 + st.tt.MAX_TRANSMIT_WAIT + 5.0
         return st
 
     def enabled(self, st):
@@ -311,7 +335,9 @@ class ConScenario(Scenario):
         if st.m_end and st.m_end[0] == "timeout" and st.m_end[1] > st.t0 + tt.MAX_TRANSMIT_WAIT + 1e-9:
             st.violations.append(Violation("gives-up-late", st.t0 + tt.MAX_TRANSMIT_WAIT, st.m_end[1], "messagemanager.py", {}, key="late"))
         if st.m_end is None and not st.horizon_hit:
-            st.violations.append(Violation("model-never-ended", "end", "active", "harness", {}, key="x"))
+            st.violations.append(Violation("exchange-abandoned", "retransmissions until ACK, RST or give-up",
+                                           "no timer of the exchange is left although neither ACK nor RST arrived and it has not given up",
+                                           "messagemanager.py:_schedule_retransmit", {}, key="abandoned"))
         mm = st.node.mman
         if mm._active_exchanges or mm._backlogs:
             st.violations.append(Violation("exchange-state-left", "no active exchange/backlog after the end",
@@ -353,7 +379,8 @@ def scenarios(tier, K):
     # forced collisions of message IDs (default tuning only)
     for (a, f, m) in ((0.5, 1.0, 1), (7, 3.0, 4), (2, 1.5, 4)):
         out.append(ConScenario("block2", a, f, m, "hi", K))
-    for src, pres in (("request", ("strayack", "strayrst", "collide", "older")), ("separate", ("collide",)), ("notification", ("collide",))):
+    for src, pres in (("request", ("strayack", "strayrst", "collide", "older", "class", "queued")), ("separate", ("collide", "class")),
+                      ("notification", ("collide", "class"))):
         for pre in pres:
             for (a, f, m) in ((2, 1.5, 4), (0.5, 1.0, 1)):
                 out.append(ConScenario(src, a, f, m, "lo", K, pre))
